@@ -149,5 +149,5 @@ M('dl_status_check_dropped', ['C20'], 'phylib/io/datasets.py',
 M('dl_md5_prefix_compare', ['C20'], 'phylib/io/datasets.py',
   "    return (_md5(path) == checksum) if checksum else None", "    return (_md5(path)[:1] == checksum[:1]) if checksum else None")
 M('dl_retry_unbounded', ['C20'], 'phylib/io/datasets.py',
-  "    if _check_md5_of_url(output_path, url) is False:\n        logger.debug(\"The checksum doesn't match: retrying the download.\")",
-  "    while _check_md5_of_url(output_path, url) is False:\n        logger.debug(\"The checksum doesn't match: retrying the download.\")")
+  "    if _check_md5_of_url(output_path, url) is False:\n        logger.debug(\"The checksum doesn't match: retrying the download.\")\n        r = _download(url, stream=True)\n        _save_stream(r, output_path)\n        if _check_md5_of_url(output_path, url) is False:\n            raise RuntimeError(\"The checksum of the downloaded file \"\n                               \"doesn't match the provided checksum.\")",
+  "    while _check_md5_of_url(output_path, url) is False:\n        logger.debug(\"The checksum doesn't match: retrying the download.\")\n        r = _download(url, stream=True)\n        _save_stream(r, output_path)")
